@@ -25,6 +25,7 @@ def handle (j : Json) : Except String Json := do
   | "rankids" => Driver.rankids j
   | "rankheap" => Driver.rankheap j
   | "activity_balance" => Driver.activityBalance j
+  | "reorder_check" => Driver.reorderCheck j
   | "tmp_issued" => Driver.tmpIssued j
   | "ft_op" => Driver.ftOp j
   | "ft_fiber" => Driver.ftFiber j
